@@ -1121,8 +1121,12 @@ impl<'a, I, A> Strategies<'a, I, A> {
                 infos.iter().map(|info| info.num_actions()),
             ) {
                 let total: f64 = strat.iter().filter(|p| p > &&thresh).sum();
-                for p in strat.iter_mut() {
-                    *p = if *p > thresh { *p / total } else { 0.0 }
+                // if no action is played more than `thresh` there is nothing to renormalize to,
+                // so the infoset is left as it is
+                if total > 0.0 {
+                    for p in strat.iter_mut() {
+                        *p = if *p > thresh { *p / total } else { 0.0 }
+                    }
                 }
             }
         }
